@@ -212,6 +212,54 @@ func main() {
 			e.Strs("doSearchFractionLoop", loops, "what the processFrac loop of doSearch ranges over")
 			e.Strs("fractionsWrites", fracWrites, "every write of a Fractions field: function: statement")
 		}
+		// the proxy's fan-out: which errors pass over a replica, how done is accumulated, what is merged
+		if pa, err := r.Load("proxy/search/async.go"); err != nil {
+			e.Missing("proxy/search/async.go", err)
+		} else {
+			for _, fn := range []string{"FetchAsyncSearchResult", "StartAsyncSearch"} {
+				fd := pa.Func("Ingestor", fn)
+				if fd == nil {
+					e.Missing("proxy"+fn, fn+" not found")
+					continue
+				}
+				var facts []string
+				ast.Inspect(fd.Body, func(n ast.Node) bool {
+					switch x := n.(type) {
+					case *ast.IfStmt:
+						c := pa.Render(x.Cond)
+						if x.Init != nil {
+							c = pa.Render(x.Init) + "; " + c
+						}
+						for _, st := range x.Body.List {
+							switch y := st.(type) {
+							case *ast.BranchStmt:
+								facts = append(facts, "if "+c+" { "+y.Tok.String()+" }")
+							case *ast.ReturnStmt:
+								facts = append(facts, "if "+c+" { return }")
+							case *ast.AssignStmt:
+								if pa.Render(y.Lhs[0]) == "done" {
+									facts = append(facts, "if "+c+" { "+pa.Render(y)+" }")
+								}
+							}
+						}
+					case *ast.AssignStmt:
+						if len(x.Lhs) == 1 && (pa.Render(x.Lhs[0]) == "done" || pa.Render(x.Lhs[0]) == "anyResponse") && x.Tok == token.DEFINE {
+							facts = append(facts, pa.Render(x))
+						}
+					case *ast.BranchStmt:
+						if x.Tok == token.BREAK {
+							facts = append(facts, "break")
+						}
+					case *ast.CallExpr:
+						if pa.Render(x.Fun) == "seq.MergeQPRs" {
+							facts = append(facts, pa.Render(x))
+						}
+					}
+					return true
+				})
+				e.Strs("proxy"+fn, facts, "Ingestor."+fn+": control flow over shards and replicas, source order")
+			}
+		}
 		// key codec
 		if q, err := r.Load("seq/qpr.go"); err != nil {
 			e.Missing("qpr.go", err)
